@@ -2,5 +2,5 @@ Require Import ZArith List. Require Extraction. Require Import ExtrOcamlBasic.
 Require Import IW.Lib.CInt IW.FS.Exf IW.Gen.Facts.
 Extraction "m.ml" Z.add Z.mul Z.sub Z.div_eucl Z.compare Z.of_nat Z.to_nat Z.opp
   tree_quirks fixed_quirks orig_quirks exfile_open exfile_write exfile_read exfile_copy truncate_lw ensure_size_lw
-  add_mmap_lw remove_mmap_lw probe_mmap remap_all zlen EXF_CRASH EXF_PSIZE
-  EXF_E_OOB EXF_E_NOT_ALIGNED EXF_E_OVERFLOW EXF_E_MAXOFF EXF_E_POLFAIL EXF_E_OVERLAP EXF_E_NOTMM.
+  add_mmap_lw remove_mmap_lw probe_mmap remap_all zlen os_any os_limit EXF_CRASH EXF_PSIZE
+  EXF_E_IO EXF_E_OOB EXF_E_NOT_ALIGNED EXF_E_OVERFLOW EXF_E_MAXOFF EXF_E_POLFAIL EXF_E_OVERLAP EXF_E_NOTMM.
